@@ -498,7 +498,8 @@ Section Spec.
   (* the reading of a text as code: separators (one per run of whitespace, none at the two ends) and the
      case-folded non-blank characters.  Two texts with the same reading differ only in the amount of
      whitespace between the same character runs and in letter case: nothing is added, dropped or merged. *)
-  Inductive vtok := VW | VC (n : N).
+  (* VW separator, VC case-folded code character, VL character of a literal / quoted identifier / comment (exact) *)
+  Inductive vtok := VW | VC (n : N) | VL (c : ch).
   Definition scons (x : vtok) (l : list vtok) : list vtok :=
     match x, l with
     | VW, [] => []
@@ -510,6 +511,39 @@ Section Spec.
   (* R l Z: the reading of l followed by a text whose reading is Z *)
   Definition R (l : list ch) (Z : list vtok) : list vtok := fold_right (fun c z => scons (vt c) z) Z l.
   Definition cview (t : list ch) : list vtok := strip_lead (R t []).
+
+  (* the lexical reading proper: an independent classification of every character as code (0), part of a
+     string literal or quoted identifier (1) or part of a comment (2), by the SQL lexical rules for
+     '...', "...", `...` (a doubled quote re-opens at once), -- to end of line, and /* ... */ *)
+  Inductive lstate := LCode | LStr (q : N) | LLine | LBlockOpen | LBlock | LBlockClose.
+  Definition quote3 (c : ch) : bool := (cp c =? 39) || (cp c =? 34) || (cp c =? 96).
+  Definition next_is (n : N) (t : list ch) : bool := match t with d :: _ => cp d =? n | [] => false end.
+  Fixpoint lex (st : lstate) (l : list ch) : list N :=
+    match l with
+    | [] => []
+    | c :: t =>
+        match st with
+        | LCode =>
+            if quote3 c then 1 :: lex (LStr (cp c)) t
+            else if (cp c =? 45) && next_is 45 t then 2 :: lex LLine t
+            else if (cp c =? 47) && next_is 42 t then 2 :: lex LBlockOpen t
+            else 0 :: lex LCode t
+        | LStr q => 1 :: lex (if cp c =? q then LCode else LStr q) t
+        | LLine => if is_nl c then 0 :: lex LCode t else 2 :: lex LLine t
+        | LBlockOpen => 2 :: lex LBlock t
+        | LBlock => if (cp c =? 42) && next_is 47 t then 2 :: lex LBlockClose t else 2 :: lex LBlock t
+        | LBlockClose => 2 :: lex LCode t
+        end
+    end.
+  (* code characters are read as in [cview]; characters of literals and comments are read exactly *)
+  Fixpoint R2 (cls : list N) (l : list ch) (Z : list vtok) : list vtok :=
+    match l, cls with
+    | c :: t, k :: ks => scons (if k =? 0 then vt c else VL c) (R2 ks t Z)
+    | _, _ => Z
+    end.
+  Definition reading (t : list ch) : list vtok := strip_lead (R2 (lex LCode t) t []).
+  (* a text without any literal, quoted identifier or comment *)
+  Definition plain (t : list ch) : bool := forallb (fun k => k =? 0) (lex LCode t).
 End Spec.
 
 (* ------------------------------------------------------------------------------------------------ *)
